@@ -24,6 +24,7 @@ SSL_CODES = {
     1010: ("SSLCertVerificationError", lambda: ssl.SSLCertVerificationError(ssl.SSL_ERROR_SSL, "certificate verify failed")),
 }
 SSLEOF = 1008
+HS_OFFSET = 10000
 WANT_READ, WANT_WRITE = 1002, 1003
 ERRNOS = sorted(errno.errorcode)
 ALL_CODES = ERRNOS + sorted(SSL_CODES)
@@ -204,12 +205,12 @@ class FakeSock:
             self.calls.append(("hs", "ok"))
             return
         self.calls.append(("hs", ("f", r[1])))
-        self._fault(r[1])
+        self._fault(r[1], HS_OFFSET)
 
-    def _fault(self, code):
+    def _fault(self, code, offset=0):
         if code not in ((WANT_READ, WANT_WRITE) if self.tls else (EAGAIN,)):
             self.broken = True
-            self.hards.append(code)
+            self.hards.append(code + offset)   # faults raised by do_handshake() are recorded as code + HS_OFFSET
         raise make_exc(code)
 
     def accept(self):
